@@ -1,5 +1,6 @@
 import DadiVerif.Model.Proto
 import DadiVerif.Model.DFE
+import DadiVerif.Model.PDFs
 /- driver ops for DFE integration and cache construction (C17).  Spectra travel entry-wise: `E` rows separated by `;`,
    each row the values of one spectrum entry over the gamma index (1-D caches) or over the row-major (i, j) pairs (2-D).
    c17.cfg                                                     -> ok <shape flags…> <symAtol> <symRtol>
@@ -15,9 +16,15 @@ import DadiVerif.Model.DFE
    c17.build N results                                         -> ok table | err TypeError:unpack
    c17.jobs multi G split job                                  -> ok ii:jj,… | err ZeroDivisionError
    c17.merge N cache|cache|…                                   -> ok table | err ValueError:conflict | ValueError:incomplete
+   c17.mixfull ext theta p2d xs1 w1 wN wD neu S1 xs2 w2 testout wv C S2 -> ok v,…       (DFE.mixture, both components by the model)
+   c17.mixptfull sym|pt theta p2d ppos gpos xs1 w1 wN wD neu gs1 sp1 rho p1 g1 p2 g2 sqrttab gs2 xs2 w2 testout wv C S2
+                                                               -> ok v,… | err IndexError    (mixture_(symmetric_)point_pos)
+   c17.pdflayout ln|g xs ys                                    -> ok <written beyond the buffer> ii:jj,…   (entry [i,j] row-major; `_` = never written)
+   c17.pdfdispatch c_ln|py_ln|c_g|py_g L                       -> ok handled var=k,…  (`_` = keeps its initial value / raises)
+   c17.lanczos z                                               -> ok <series x(z-1)> <t>  (gamma_func, main branch, rational part)
    tables: slots separated by `;`, `_` = None, else the values.  results: `k=v,v` or `!` (exception object), `;`-separated. -/
 namespace DadiVerif.Driver.DFE
-open DadiVerif DadiVerif.Proto DadiVerif.DFE DadiVerif.Gen.DFE
+open DadiVerif DadiVerif.Proto DadiVerif.DFE DadiVerif.Gen.DFE DadiVerif.PDFs DadiVerif.Gen.PDFs
 
 def parseRows (s : String) : Option (List (List Rat)) :=
   if s = "-" then some [] else (s.splitOn ";").mapM parseList
@@ -125,9 +132,8 @@ def handle (toks : List String) : Option String :=
         let E := neu.length
         let runs := (List.range E).map fun e =>
           let row := sp.getD e []
-          let pdf_fs := integrate1D ext (pp1_thetaArg theta) n (fn1 xs) (fn1 w) (fn1 row) (neu.getD e 0) (tails wN wD)
           let comp : Rat → Option Rat := fun g => (computed.find? (fun p => p.1 == g)).map fun p => p.2.getD e 0
-          pointPos1D theta comp pposL gposL gs row pdf_fs
+          integratePointPos1D ext theta comp pposL gposL gs row n (fn1 xs) (fn1 w) (neu.getD e 0) (tails wN wD)
         match runs.mapM (fun r => match r with | .ok v => some v | .error _ => none) with
         | none =>
             let e := runs.findSome? fun r => match r with | .error e => some e | .ok _ => none
@@ -227,6 +233,69 @@ def handle (toks : List String) : Option String :=
       match merge N fs with
       | .error e => some ("err " ++ e)
       | .ok t => some ("ok " ++ showTable N t)
+  | ["c17.mixfull", ext, theta, p2d, xs1, w1, wN, wD, neu, S1, xs2, w2, testout, wv, C, S2] => do
+      let ext ← parseBool ext; let theta ← parseRat theta; let p2d ← parseRat p2d
+      let xs1 ← parseList xs1; let w1 ← parseList w1; let wN ← parseRat wN; let wD ← parseRat wD
+      let neu ← parseList neu; let S1 ← parseRows S1
+      let xs2 ← parseList xs2; let w2 ← parseRows w2; let testout ← parseRows testout; let wv ← parseRows wv
+      let C ← parseList C; let S2 ← parseRows S2
+      let n1 := xs1.length; let n2 := xs2.length; let E := neu.length
+      if w1.length ≠ n1 ∨ S1.length ≠ E ∨ S1.any (·.length ≠ n1) ∨ S2.length ≠ E
+         ∨ w2.length ≠ n2 ∨ w2.any (·.length ≠ n2) ∨ S2.any (·.length ≠ n2 * n2) ∨ testout.length ≠ 3 ∨ testout.any (·.length ≠ 3)
+         ∨ wv.length ≠ 4 ∨ wv.any (·.length ≠ n2) ∨ C.length ≠ 4 then some "err shape" else
+      let sym := symmetricTest (fn2 testout)
+      let out := (List.range E).map fun e =>
+        mixtureEntry ext theta p2d n1 (fn1 xs1) (fn1 w1) (fn1 (S1.getD e [])) (neu.getD e 0) (tails wN wD)
+          sym n2 (fn1 xs2) (fn2 w2) (fnFlat n2 (S2.getD e [])) (edgeW wv) (cornerW C)
+      some ("ok " ++ showList out)
+  | ["c17.mixptfull", kind, theta, p2d, ppos, gpos, xs1, w1, wN, wD, neu, gs1, sp1, rho, p1, g1, p2, g2, tab, gs2, xs2, w2, testout, wv, C, S2] => do
+      let symm ← if kind = "sym" then some true else if kind = "pt" then some false else none
+      let theta ← parseRat theta; let p2d ← parseRat p2d; let ppos ← parseRat ppos; let gpos ← parseRat gpos
+      let xs1 ← parseList xs1; let w1 ← parseList w1; let wN ← parseRat wN; let wD ← parseRat wD
+      let neu ← parseList neu; let gs1 ← parseList gs1; let sp1 ← parseRows sp1
+      let rho ← parseRat rho; let p1 ← parseRat p1; let g1 ← parseRat g1; let p2 ← parseRat p2; let g2 ← parseRat g2
+      let tab ← parseSqrtTab tab; let gs2 ← parseList gs2
+      let xs2 ← parseList xs2; let w2 ← parseRows w2; let testout ← parseRows testout; let wv ← parseRows wv
+      let C ← parseList C; let S2 ← parseRows S2
+      let n1 := xs1.length; let n2 := xs2.length; let E := neu.length; let G := gs2.length
+      if w1.length ≠ n1 ∨ sp1.length ≠ E ∨ sp1.any (·.length ≠ gs1.length) ∨ gs1.length < n1 ∨ S2.length ≠ E
+         ∨ w2.length ≠ n2 ∨ w2.any (·.length ≠ n2) ∨ S2.any (·.length ≠ G * G) ∨ testout.length ≠ 3 ∨ testout.any (·.length ≠ 3)
+         ∨ wv.length ≠ 4 ∨ wv.any (·.length ≠ n2) ∨ C.length ≠ 4 ∨ G < n2 then some "err shape" else
+      match maskIdx gs2 g1, maskIdx gs2 g2 with
+      | [i1], [i2] =>
+          let sym := symmetricTest (fn2 testout)
+          let runs := (List.range E).map fun e =>
+            mixturePointEntry symm (sqrtOf tab) theta p2d ppos gpos gs1 (sp1.getD e []) n1 (fn1 xs1) (fn1 w1) (neu.getD e 0) (tails wN wD)
+              sym rho n2 (fn1 xs2) (fn2 w2) (fnFlat G (S2.getD e [])) (edgeW wv) (cornerW C) i1 i2 p1 p2
+          match runs.mapM (fun r => match r with | .ok v => some v | .error _ => none) with
+          | some vs => some ("ok " ++ showList vs)
+          | none => some ("err " ++ (runs.findSome? fun r => match r with | .error e => some e | .ok _ => none).getD "?")
+      | [], _ => some "err IndexError"
+      | _, [] => some "err IndexError"
+      | _, _ => some "err unmodelled"
+  | ["c17.pdflayout", which, xs, ys] => do
+      let gam ← if which = "g" then some true else if which = "ln" then some false else none
+      let xs ← xs.toNat?; let ys ← ys.toNat?
+      let val : Nat → Nat → Nat × Nat := fun ii jj => (ii, jj)
+      let beyond := writtenBeyond gam xs ys 0 ((xs + ys + 2) * (xs + ys + 2)) val
+      let cells := (List.range xs).flatMap fun i => (List.range ys).map fun j =>
+        match resultAt gam xs ys 0 val i j with
+        | some (a, b) => s!"{a}:{b}"
+        | none => "_"
+      some s!"ok {beyond} {if cells.isEmpty then "-" else ",".intercalate cells}"
+  | ["c17.pdfdispatch", which, L] => do
+      let L ← L.toNat?
+      let (tab, ok) ← if which = "c_ln" then some (c_ln_dispatch L, c_ln_handled L)
+        else if which = "py_ln" then some (py_ln_dispatch L, py_ln_accepts L)
+        else if which = "c_g" then some (c_g_dispatch L, c_g_handled L)
+        else if which = "py_g" then some (py_g_dispatch L, py_g_accepts L) else none
+      let items := tab.map fun (v, k) => match k with
+        | some k => s!"{v}={k}"
+        | none => s!"{v}=_"
+      some s!"ok {bstr ok} {",".intercalate items}"
+  | ["c17.lanczos", z] => do
+      let z ← parseRat z
+      some s!"ok {showRat (lanczosSeries (z - 1))} {showRat (lanczosT (z - 1))} {showRat lanczosReflectBelow}"
   | _ => none
 
 end DadiVerif.Driver.DFE
